@@ -3,7 +3,8 @@
 (* SamplerZ.tla: for every loop iteration recorded during a sign call                                             *)
 (*   {"ev":"iter","n","call","mu":[4w],"sigma":[4w],"sigmin":[4w],"z0","b","x":[4w],"ccs":[4w],"bytes":[7],"res":bool}   *)
 (* TLC recomputes the Bernoulli parameter x and the scaling ccs from (mu, sigma', sigma_min, z0, b) in exact binary64   *)
-(* arithmetic and the verdict of BerExp from (x, ccs, bytes), and demands: bit-identical x and ccs, the same verdict,    *)
+(* arithmetic and the verdict of BerExp from the recorded (x, ccs, bytes), and demands: x and ccs equal up to 2^-40      *)
+(* relative (they are intermediate values; only verdicts are demanded exactly), the same verdict,                      *)
 (* sigma_min equal to the variant's parameter, and sigma' in [sigma_min, sigma_max] (the precondition C04 establishes).  *)
 (* Per call {"ev":"callsum","n","call","accepted","iters","returned":bool}: exactly 2n accepted iterations per          *)
 (* ffSampling pass (one per tree-leaf coordinate), i.e. accepted = 2n * (norm attempts).                              *)
@@ -16,7 +17,11 @@ Judge(e) ==
   ELSE
     LET glue == SpecIterGlue(FFromWords(e.mu), FFromWords(e.sigma), FFromWords(e.sigmin), e.z0, e.b)
         be == SpecBerExp(FFromWords(e.x), FFromWords(e.ccs), e.bytes)
-        facts == [x_bits |-> FToWords(glue.x) = e.x, ccs_bits |-> FToWords(glue.ccs) = e.ccs, verdict |-> be.ok /\ be.res = e.res,
+        \* x and ccs are intermediate values: demanded up to a relative 2^-40 (another valid order of the floating-point operations
+        \* gives other last bits; x itself is a difference of two terms, so its tolerance is relative to the larger term, i.e. to
+        \* max(|x|, 1)); the Bernoulli verdict is demanded exactly, from the RECORDED x and ccs
+        xtol == FClose(glue.x, FFromWords(e.x), 40) \/ FClose(FAdd(glue.x, FOne), FAdd(FFromWords(e.x), FOne), 38)
+        facts == [x_value |-> xtol, ccs_value |-> FClose(glue.ccs, FFromWords(e.ccs), 45), verdict |-> be.ok /\ be.res = e.res,
                   sigmin_param |-> e.sigmin = SigmaMinBitsOf(e.n),
                   sigma_in_range |-> LeqWords(SigmaMinBitsOf(e.n), e.sigma) /\ LeqWords(e.sigma, SigmaMaxBits)]
         failed == {k \in DOMAIN facts : ~facts[k]}
